@@ -71,6 +71,12 @@ type Ctx struct {
 	initMemo         *initState
 	recMemo          map[string]recRes
 	decodeMemo       *decodeTableRes
+	onnxInitMemo     *initState
+	readerMemo       map[*ssa.Function]readerRes
+	castMemo         *castTableRes
+	mutParamMemo     map[*ssa.Function]bool
+	convOuts         []convOut
+	convMemo         *recRes
 	expandHelpers    bool // successTerms follows unexported helpers that compute the output (R16)
 	d6Witness        string
 	eff              *effects
